@@ -96,6 +96,10 @@ def tasks(tier):
                    alphabet=["ok", "x:T", "x:P+ra", "x:U+ra", "r:U+ra", "r:A+ra", "x:A", "x:P"])
         out.append({"family": "caps-classification-objects", "cfg": cfg, "entry": e, "bound": 0,
                     "weight": 3})
+    # `raise X from Y`: the cap that counts is the one for the class the classifier gives X
+    for pc, mu, e in itertools.product([{}, {"U": 1}], [0, 1], Q4 + ["Policy.call", "AsyncPolicy.execute"]):
+        cfg = dict(M=4, per_class=pc, max_unknown=mu, alphabet=["ok", "xq:U", "x:T", "xq:P"])
+        out.append({"family": "caps-chained-cause", "cfg": cfg, "entry": e, "bound": 0})
     # long runs: a cap of 8 or 9, and a cap of 1 whose class comes back after many other failures
     for pc, mu in [({"T": 8}, None), ({"T": 9, "U": 1}, None), ({}, 8), ({"U": 1, "T": 10}, 3)]:
         for e in Q4:
